@@ -103,6 +103,22 @@ class Evaluator:
       self.memo[id(t)] = (t, m)
     return m
 
+  def shallow_mask(self, t):
+    """Truth table of a composite recomputed from its *current* members (members memoised).
+    Differs from the memoised mask(t) iff the term object was mutated after it was built."""
+    tt = type(t)
+    if tt is self.cAnd:
+      m = self.u.full
+      for e in t.exprs:
+        m &= self.mask(e)
+      return m
+    if tt is self.cOr:
+      m = 0
+      for e in t.exprs:
+        m |= self.mask(e)
+      return m
+    return self.mask(t)
+
   def eval_point(self, t, alpha):
     """Truth of t under one assignment (dict variable -> value). No memo."""
     tt = type(t)
